@@ -42,6 +42,8 @@ type faultCase struct {
 	// Prior: kind of an earlier request call on the same client ("" none): success | stall | partial-stall | eof | ioerr
 	Prior      string `json:"prior,omitempty"`
 	PriorShape string `json:"prior_shape,omitempty"` // request of the earlier call: "" same | short | long
+	// ExplicitParser: the client's configuration names the standard response parser explicitly (see cli.Scenario)
+	ExplicitParser bool `json:"explicit_parser,omitempty"`
 	// Over (fault oversize-frame): the transport delivers a structurally well-formed register reply (consistent byte count,
 	// MBAP length / CRC) that is Over bytes longer than the largest legal ADU of the framing
 	Over int `json:"over,omitempty"`
@@ -168,6 +170,7 @@ func prepare(c faultCase) (prep, error) {
 		sc.NilRequest = true
 	}
 	sc.Stream, sc.Events = stream, ev
+	sc.ExplicitParser = c.ExplicitParser
 	sc.Prior = c.Prior
 	sc.PriorReq = cli.PriorShapeReq(c.PriorShape)
 	if (c.Prior == "stall" || c.Prior == "partial-stall") && sc.ReadTimeoutMs > 100 {
@@ -342,6 +345,7 @@ func genFault(t *rapid.T, kinds []string) faultCase {
 		c.ExcCode = rapid.SampledFrom([]uint8{1, 2, 3, 4, 11}).Draw(t, "exc_code")
 	}
 	c.Fault = rapid.SampledFrom(faults).Draw(t, "fault")
+	c.ExplicitParser = !cli.IsSerial(c.Kind) && rapid.IntRange(0, 3).Draw(t, "explicit_parser") == 0
 	if c.Fault == "oversize-frame" {
 		c.Over = rapid.SampledFrom([]int{1, 1, 2, 3, 4, 4, 5, 6, 9, 10, 11, 12}).Draw(t, "over")
 	}
@@ -355,7 +359,7 @@ func genFault(t *rapid.T, kinds []string) faultCase {
 		}
 	}
 	if c.Fault != "not-connected" && c.Fault != "connect-failed" && c.Fault != "nil-request" && rapid.IntRange(0, 2).Draw(t, "with_prior") == 0 {
-		c.Prior = rapid.SampledFrom([]string{"success", "stall", "partial-stall", "eof", "ioerr"}).Draw(t, "prior")
+		c.Prior = rapid.SampledFrom([]string{"success", "stall", "partial-stall", "eof", "ioerr", "nil-request"}).Draw(t, "prior")
 		c.PriorShape = rapid.SampledFrom(cli.PriorShapes).Draw(t, "prior_shape")
 	}
 	if c.Prefix > 1 {
